@@ -184,3 +184,14 @@ CHECKS["C14"] = {
     "design_ref": "5/C14",
     "assumptions": TRUST,
 }
+
+CHECKS["C09"] = {
+    "tests": [T("TestC09", 100, 2000)],
+    "level": "exploration",
+    "technique": "property-based testing (rapid): generated sets of 2-4 databases on one instance (shared default bus) with interleaved writes, loads and replications; frame-condition oracle (everything about the untouched databases is unchanged) plus transport-log and event-bus invariants",
+    "rule": "rapid draws 2-4 databases (type, write list) opened on one instance with the default shared event bus, on a second replicating instance (so every topic has a peer) and on an author instance, and 2-9 actions write(db, n) / load(db) / replicate(db, n: entries authored elsewhere and synced in). Around every action, at rest: (b) every other database of the instance has the same entries, view, replication progress/max and cached _localHeads/_remoteHeads bytes as before; (a) every message recorded by the simulated transport names the topic's own database, the instance only sends messages for the touched database, and every head carried has that database's log id; (c) every store event seen on the instance's bus (write, replicate, replicate-progress, replicated, load, load-progress, ready) has the touched database's address and carries only its entries. non-trivial = an untouched database was non-empty and had a topic peer; distinct = SHA-1 of the case JSON",
+    "level_text": "Generated configurations and histories; no exhaustiveness claimed.",
+    "level_note": "Quiescence is decided per store from hook counters; the second instance's echo traffic for the touched database is allowed.",
+    "design_ref": "5/C09",
+    "assumptions": TRUST,
+}
